@@ -1303,7 +1303,7 @@ def _explore(ctx, worlds, salt, res=None, usage=True):
     replies = ctx.driver().run(reqs) if reqs else []
     for idx, (w, (a, n, tags)) in enumerate(zip(done, spans)):
         judge_world(w, replies[a:a + n], tags, res, swallow, idx)
-    if usage:
+    if usage and bad < 6:
         for i, v in enumerate(["clean", "force", "killed"]):
             run_usage(ctx, res, v, i)
     res.assumptions = [
@@ -1347,7 +1347,7 @@ def run(ctx):
         return res
     worlds = _load_corpus() + corpus_worlds()
     if ctx.thorough:
-        worlds += _worlds(ctx, 700, 80, 12, "main", big=True)
+        worlds += _worlds(ctx, 3000, 300, 30, "main", big=True)
     else:
         worlds += _worlds(ctx, 200, 30, 4, "main")
     return _explore(ctx, worlds, "w")
